@@ -714,6 +714,12 @@ func (run *sRun) readChecks(i int, after string, n int) *core.Violation {
 // relax: cells for which either of two values is acceptable (in-flight op).
 type sRelax struct {
 	pre, post *sModel
+	// anyVersion: the in-flight operation is a measurement drop that was not acknowledged.  The shard deletes
+	// the measurement's files one by one, so the image may hold any subset of them and a cell may show an
+	// older acknowledged version (the newer file is gone, the older one not yet).  In the product the drop is
+	// preceded by the catalogue's MarkMeasurementDelete, which hides the measurement from queries until the
+	// store has finished; the shard-level world has no catalogue, so the partial state is accepted here.
+	anyVersion bool
 }
 
 func readChecksOn(sh *shard, model *sModel, c SCase, r *core.Rand, out *core.Outcome, prop string, i int, after string, n int, relax *sRelax) *core.Violation {
@@ -834,6 +840,8 @@ func applyRelax(got, want map[string][]sDumpRow, relax *sRelax, q *sQuery) (map[
 					// differs between pre and post: accept what was read if it is one of them
 					if gv, ok := g[f]; ok {
 						if (oka && gv.equal(va)) || (okb && gv.equal(vb)) {
+							row[f] = gv
+						} else if relax.anyVersion && relax.pre.classifyM(q.Mst, s, t, f, gv) == "stale_value" {
 							row[f] = gv
 						} else if okb {
 							row[f] = vb
